@@ -17,6 +17,8 @@ import (
 	"sync"
 	"time"
 
+	"github.com/prometheus/client_golang/prometheus"
+
 	"example.com/scion-time/core/server"
 	"example.com/scion-time/core/timebase"
 	"example.com/scion-time/net/ntp"
@@ -207,6 +209,26 @@ func concCase(ng, nops int, seed uint64) {
 // RaceChild is the body of the child process of cmd/c07race (built with -race): it prints the observations.
 func RaceChild(ng, nops int, seed uint64) {
 	timebase.RegisterClock(clk)
+	// a metrics scrape at the same time: whatever the package registered with the default registry is
+	// collected over and over while clients are added and removed, so that the race detector sees any
+	// collector that reads the store without the lock
+	stop := make(chan struct{})
+	scraped := make(chan int)
+	go func() {
+		n := 0
+		for {
+			select {
+			case <-stop:
+				scraped <- n
+				return
+			default:
+				prometheus.DefaultGatherer.Gather()
+				n++
+			}
+		}
+	}()
 	clients, counts := ConcRun(ng, nops, seed)
+	close(stop)
+	fmt.Printf("NOTE c07race: %d metrics scrapes during the concurrent run\n", <-scraped)
 	fmt.Printf("CONC\t%s\t%s\n", clients, counts)
 }
